@@ -2,7 +2,7 @@
    sumbool are mapped to OCaml's; Z, N, positive, nat stay Coq datatypes; no Extract Constant. *)
 From Coq Require Import Strings.String Floats.SpecFloat.
 Require Import Model.Base Model.Syntax Model.F64 Model.Lexer Model.Builder Model.Value Model.Context
-               Model.Builtins Model.Eval Model.Iter Model.Interface Model.Script Model.InterfaceGen Model.Display.
+               Model.Builtins Model.Eval Model.Iter Model.Interface Model.Script Model.InterfaceGen Model.Display Model.ValueApi.
 Require Extraction.
 Require Import ExtrOcamlBasic.
 Extraction Language OCaml.
@@ -10,7 +10,9 @@ Extraction "model.ml"
   s2l tokenize str_to_partial_tokens tokens_to_operator_tree build_operator_tree
   f_of_bits bits_of_f parse_float
   run_script step run_entry_gen initial_ctx apply_libfn
-  value_fmt value_debug node_fmt error_fmt set_value eval_mut empty_hashmap
+  value_fmt value_debug node_fmt error_fmt set_value set_function eval_mut eval_ro empty_hashmap
+  as_string as_int as_float as_number as_boolean as_tuple as_fixed_len_tuple as_ranged_len_tuple as_empty str_from type_of value_eqb
+  is_string is_int is_float is_number is_boolean is_tuple is_empty try_from_string try_from_bool try_from_tuple try_from_unit
   iter_all iter_identifiers iter_variable_identifiers iter_read_variable_identifiers
   iter_write_variable_identifiers iter_function_identifiers rename_with
   ident_any ident_var ident_read ident_write ident_fn
